@@ -1,1 +1,5 @@
 import BU.Properties.C06
+#print axioms C06.normalise_strict_lowS
+#print axioms C06.grind_first_lowR
+#print axioms C06.sign_input_spec
+#print axioms C06.lowS_preserves_validity
